@@ -72,7 +72,9 @@ def c14 : List String := Id.run do
       out := out ++ [s!"reference to alloc / an external crate: {repr r}"]
     else if !(noStdBuilds.all (fun b => !compiledIn b r)) then
       out := out ++ [s!"std item compiled into a no-std build: {repr r}"]
-    else if !(stdBuilds.all (fun b => !compiledIn b r || allowedStd.contains r.path)) then
+    else if r.kind == "prelude-alloc" && !((noStdBuilds ++ stdBuilds).all (fun b => !compiledIn b r)) then
+      out := out ++ [s!"an allocating std-prelude item is compiled into a shipped build: {repr r}"]
+    else if r.kind != "prelude-alloc" && !(stdBuilds.all (fun b => !compiledIn b r || allowedStd.contains r.path)) then
       out := out ++ [s!"the shipped std build names a std item other than CPU feature detection: {repr r}"]
   if !(crateAttrs.contains "cfg_attr(not(feature=\"std\"),no_std)") then
     out := out ++ ["the crate is not `no_std` when the `std` feature is off"]
